@@ -194,6 +194,90 @@ fn drive_aig(reader: DeferredReader<'static>, sink: &mut Sink) -> End {
     }
 }
 
+
+macro_rules! drive_aiger_stream {
+    ($name:ident, $m:ident, $lit:ty, $has_inputs:tt) => {
+        fn $name(reader: DeferredReader<'static>, sink: &mut Sink) -> End {
+            use flussab_aiger::$m::{Config, Parser};
+            macro_rules! t {
+                ($e:expr) => {
+                    match $e {
+                        Ok(x) => x,
+                        Err(e) => return end_of!(e, flussab_aiger::InnerParseError),
+                    }
+                };
+            }
+            let p = t!(Parser::<$lit>::new(LineReader::new(reader), Config::default()));
+            sink.item(format!("{:?}", p.header()), vec![]);
+            drive_aiger_stream!(@sections $has_inputs, p, sink, t)
+        }
+    };
+    (@sections true, $p:ident, $sink:ident, $t:ident) => {{
+        let mut s = $t!($p.inputs());
+        while let Some(x) = $t!(s.next_input()) {
+            $sink.item(format!("input {:?}", x), vec![]);
+        }
+        let s = $t!(s.latches());
+        drive_aiger_stream!(@rest s, $sink, $t)
+    }};
+    (@sections false, $p:ident, $sink:ident, $t:ident) => {{
+        let s = $t!($p.latches());
+        drive_aiger_stream!(@rest s, $sink, $t)
+    }};
+    (@rest $s:ident, $sink:ident, $t:ident) => {{
+        let mut s = $s;
+        while let Some(x) = $t!(s.next_latch()) {
+            $sink.item(format!("latch {:?}", x), vec![]);
+        }
+        let mut s = $t!(s.outputs());
+        while let Some(x) = $t!(s.next_output()) {
+            $sink.item(format!("output {:?}", x), vec![]);
+        }
+        let mut s = $t!(s.bad_state_properties());
+        while let Some(x) = $t!(s.next_bad_state_property()) {
+            $sink.item(format!("bad {:?}", x), vec![]);
+        }
+        let mut s = $t!(s.invariant_constraints());
+        while let Some(x) = $t!(s.next_invariant_constraint()) {
+            $sink.item(format!("constraint {:?}", x), vec![]);
+        }
+        let mut s = $t!(s.justice_properties());
+        while let Some(x) = $t!(s.next_justice_property_size()) {
+            $sink.item(format!("justice size {:?}", x), vec![]);
+        }
+        let mut s = $t!(s.justice_property_local_fairness_constraints());
+        while let Some(x) = $t!(s.next_justice_property_local_fairness_constraint()) {
+            $sink.item(format!("justice lit {:?}", x), vec![]);
+        }
+        let mut s = $t!(s.fairness_constraints());
+        while let Some(x) = $t!(s.next_fairness_constraint()) {
+            $sink.item(format!("fairness {:?}", x), vec![]);
+        }
+        let mut s = $t!(s.and_gates());
+        while let Some(x) = $t!(s.next_and_gate()) {
+            $sink.item(format!("gate {:?}", x), vec![]);
+        }
+        let mut s = $t!(s.symbols());
+        loop {
+            let sym = match $t!(s.next_symbol()) {
+                Some(x) => format!("symbol {:?}", x),
+                None => break,
+            };
+            $sink.item(sym, vec![]);
+            if $sink.items.len() > 4096 {
+                return End::Panic("more items than the input can hold".into());
+            }
+        }
+        let c = $t!(s.comment()).map(|c| c.to_string());
+        if let Some(c) = c {
+            $sink.item(format!("comment {:?}", c), vec![]);
+        }
+        End::Clean
+    }};
+}
+drive_aiger_stream!(drive_aag_stream, ascii, u8, true);
+drive_aiger_stream!(drive_aig_stream, binary, u32, false);
+
 pub fn run(f: &Fmt, input: &[u8], sched: Sched) -> Outcome {
     let (src, meter) = Src::new(input, sched);
     let mark = mem_mark();
@@ -489,6 +573,8 @@ pub const FORMATS: &[Fmt] = &[
     Fmt { name: "satlog_ign", drive: drive_satlog_ign, tokens: SATLOG_TOKENS, docs: SATLOG_DOCS, text: true, streaming: false, item_roundtrip: false, has_writer: false },
     Fmt { name: "aag", drive: drive_aag, tokens: AAG_TOKENS, docs: AAG_DOCS, text: true, streaming: false, item_roundtrip: false, has_writer: true },
     Fmt { name: "aig", drive: drive_aig, tokens: AIG_TOKENS, docs: AIG_DOCS, text: false, streaming: false, item_roundtrip: false, has_writer: true },
+    Fmt { name: "aag_stream", drive: drive_aag_stream, tokens: AAG_TOKENS, docs: AAG_DOCS, text: true, streaming: true, item_roundtrip: false, has_writer: false },
+    Fmt { name: "aig_stream", drive: drive_aig_stream, tokens: AIG_TOKENS, docs: AIG_DOCS, text: false, streaming: true, item_roundtrip: false, has_writer: false },
 ];
 
 pub fn inputs_of(f: &Fmt, tier: &str, seed: u64) -> (Vec<Vec<u8>>, String) {
